@@ -348,7 +348,7 @@ impl Property for C15 {
     fn strategy(&self, tier: Tier) -> BoxedStrategy<Case> {
         let (maxdim, maxrows) = tier.pick((4usize, 10usize), (5, 14));
         sized(maxdim, maxdim + 2)
-            .prop_flat_map(move |n| (prop_oneof![11 => poly_spec_np(n, 1, maxrows, true), 1 => poly_spec_np(n, maxrows, 2 * maxrows + 4, true)], proptest::collection::vec(prop::bool::weighted(0.3), maxrows * 4 + 8)))
+            .prop_flat_map(move |n| (prop_oneof![11 => poly_spec_np(n, 0, maxrows, true), 1 => poly_spec_np(n, maxrows, 2 * maxrows + 4, true)], proptest::collection::vec(prop::bool::weighted(0.3), maxrows * 4 + 8)))
             .prop_map(|(p, rm)| Case { p, rm })
             .boxed()
     }
